@@ -24,30 +24,70 @@ open XcmModel XcmModel.Wire XcmModel.Framing
 
 /-! ## Sender side: the wire carries exactly the frames of the accepted messages -/
 
+/-- total payload size of a list of messages -/
+def sumLen (l : List Bytes) : Nat := (l.map List.length).sum
+
+theorem sumLen_append (a b : List Bytes) : sumLen (a ++ b) = sumLen a + sumLen b := by
+  simp [sumLen]
+
 /-- `extra` is the message of a `send` that failed with a connection error *after* having
-been buffered; the lower layer is then dead, so its frame is never completed on the wire -/
+been buffered; the lower layer is then dead, so its frame is never completed on the wire.
+The invariant also pins the four send-side counters (used by C17). -/
 structure SendInv (e : Ep) : Prop where
   wf : SWf e.s
   wire : ∃ extra, wirePending e.s e.env = frames (e.accepted ++ extra) ∧
     (extra = [] ∨ ∃ m, extra = [m] ∧ e.env.txErr ≠ none ∧ e.s.sbuf ≠ []) ∧
-    (∀ m ∈ e.accepted ++ extra, Valid m)
+    (∀ m ∈ e.accepted ++ extra, Valid m) ∧
+    e.s.cnt.fromAppM = (e.accepted ++ extra).length ∧ e.s.cnt.fromAppB = sumLen (e.accepted ++ extra)
+  s1 : e.s.cnt.fromAppM = e.s.cnt.toLowerM + (if e.s.sbuf = [] then 0 else 1)
+  s2 : e.s.cnt.fromAppB = e.s.cnt.toLowerB + (if e.s.sbuf = [] then 0 else rd32 e.s.sbuf)
 
 theorem sendInv_init : SendInv {} :=
-  ⟨Or.inl ⟨rfl, rfl⟩, [], rfl, Or.inl rfl, by simp⟩
+  ⟨Or.inl ⟨rfl, rfl⟩, ⟨[], rfl, Or.inl rfl, (by simp), rfl, rfl⟩, rfl, rfl⟩
+
+/-- the four send-side counters of `s'` are those of `s` -/
+def CntSame (s' s : St) : Prop :=
+  s'.cnt.fromAppM = s.cnt.fromAppM ∧ s'.cnt.fromAppB = s.cnt.fromAppB ∧
+  s'.cnt.toLowerM = s.cnt.toLowerM ∧ s'.cnt.toLowerB = s.cnt.toLowerB
+
+/-- counter bookkeeping of one flush -/
+theorem flush_counters {s : St} {env : Env} {r : St × Env × Option Nat × List SAns}
+    (sp : TfsSpec s env r)
+    (h1 : s.cnt.fromAppM = s.cnt.toLowerM + (if s.sbuf = [] then 0 else 1))
+    (h2 : s.cnt.fromAppB = s.cnt.toLowerB + (if s.sbuf = [] then 0 else rd32 s.sbuf)) :
+    r.1.cnt.fromAppM = s.cnt.fromAppM ∧ r.1.cnt.fromAppB = s.cnt.fromAppB ∧
+    r.1.cnt.fromAppM = r.1.cnt.toLowerM + (if r.1.sbuf = [] then 0 else 1) ∧
+    r.1.cnt.fromAppB = r.1.cnt.toLowerB + (if r.1.sbuf = [] then 0 else rd32 r.1.sbuf) := by
+  cases hr : r.2.2.1 with
+  | none =>
+    obtain ⟨hs, _⟩ := sp.done hr
+    by_cases he : s.sbuf = []
+    · have hc := sp.cntSame (Or.inl he)
+      rw [hc, hs]; simp only [he, if_true] at h1 h2; simp [h1, h2]
+    · have hc := sp.cntDone he hr
+      rw [hc, hs]; simp only [he, if_false] at h1 h2
+      simp only [if_true]
+      refine ⟨trivial, trivial, ?_, ?_⟩ <;> omega
+  | some e0 =>
+    obtain ⟨hs, hne, _⟩ := sp.fail e0 hr
+    have hc := sp.cntSame (Or.inr (by rw [hr]; simp))
+    rw [hc, hs]; exact ⟨rfl, rfl, h1, h2⟩
 
 /-- a flush (`try_finish_send`) preserves the sender invariant whatever the lower layer answers -/
 theorem sendInv_flush {e : Ep} (h : SendInv e) (ans : List SAns) {e' : Ep}
     (hs : e'.s.sbuf = (tryFinishSend e.s e.env ans).1.sbuf ∧ e'.s.sent = (tryFinishSend e.s e.env ans).1.sent)
     (henv : e'.env.tx = (tryFinishSend e.s e.env ans).2.1.tx ∧
       e'.env.txErr = (tryFinishSend e.s e.env ans).2.1.txErr)
+    (hcnt : CntSame e'.s (tryFinishSend e.s e.env ans).1)
     (hacc : e'.accepted = e.accepted) : SendInv e' := by
   have sp := tfs_spec ans e.s e.env h.wf
-  simp only [tryFinishSend] at hs henv
-  generalize tryFinishSendAux ans e.s e.env = r at sp hs henv
-  obtain ⟨extra, hw, hex, hv⟩ := h.wire
+  simp only [tryFinishSend] at hs henv hcnt
+  generalize tryFinishSendAux ans e.s e.env = r at sp hs henv hcnt
+  obtain ⟨extra, hw, hex, hv, hc1, hc2⟩ := h.wire
+  obtain ⟨f1, f2, f3, f4⟩ := flush_counters sp h.s1 h.s2
   have hwp : wirePending e'.s e'.env = wirePending r.1 r.2.1 := by
     simp only [wirePending, hs.1, hs.2, henv.1]
-  refine ⟨?_, extra, by rw [hacc, hwp, sp.wire, hw], ?_, by rw [hacc]; exact hv⟩
+  refine ⟨?_, ⟨extra, (by rw [hacc, hwp, sp.wire, hw]), ?_, (by rw [hacc]; exact hv), ?_, ?_⟩, ?_, ?_⟩
   · rcases sp.wf with ⟨a, b⟩ | a
     · exact Or.inl ⟨hs.1.trans a, hs.2.trans b⟩
     · exact Or.inr (by rw [hs.1, hs.2]; exact a)
@@ -61,14 +101,19 @@ theorem sendInv_flush {e : Ep} (h : SendInv e) (ans : List SAns) {e' : Ep}
         refine ⟨m, hm, ?_, ?_⟩
         · rw [henv.2, s1, hte']; simp
         · rw [hs.1, s2]; exact hne
+  · rw [hcnt.1, f1, hacc]; exact hc1
+  · rw [hcnt.2.1, f2, hacc]; exact hc2
+  · rw [hcnt.1, hcnt.2.2.1, hs.1]; exact f3
+  · rw [hcnt.2.1, hcnt.2.2.2, hs.1]; exact f4
 
 /-- when a flush completes although `extra` is pending … it cannot: the lower layer is dead -/
 theorem extra_nil_of_flush_ok {e : Ep} (h : SendInv e) (ans : List SAns)
     (hok : (tryFinishSendAux ans e.s e.env).2.2.1 = none) :
-    wirePending e.s e.env = frames e.accepted := by
-  obtain ⟨extra, hw, hex, _⟩ := h.wire
+    wirePending e.s e.env = frames e.accepted ∧ e.s.cnt.fromAppM = e.accepted.length ∧
+      e.s.cnt.fromAppB = sumLen e.accepted := by
+  obtain ⟨extra, hw, hex, _, hc1, hc2⟩ := h.wire
   rcases hex with rfl | ⟨m, _, hte, hne⟩
-  · simpa using hw
+  · simp only [List.append_nil] at hw hc1 hc2; exact ⟨hw, hc1, hc2⟩
   · cases hte' : e.env.txErr with
     | none => exact absurd hte' hte
     | some e0 =>
@@ -82,14 +127,14 @@ theorem sendInv_send {e : Ep} (h : SendInv e) (m : Bytes) (ans : List SAns) :
   simp only [Ep.step]
   by_cases h1 : m.length > Generated.MBUF_MSG_MAX
   · have hval : send e.s e.env m ans = (e.s, e.env, .err EMSGSIZE, ans) := by simp [send, h1]
-    rw [hval]; exact ⟨h.wf, h.wire⟩
+    rw [hval]; exact ⟨h.wf, h.wire, h.s1, h.s2⟩
   by_cases h2 : m.length = 0
   · have hval : send e.s e.env m ans = (e.s, e.env, .err EINVAL, ans) := by simp [send, h1, h2]
-    rw [hval]; exact ⟨h.wf, h.wire⟩
+    rw [hval]; exact ⟨h.wf, h.wire, h.s1, h.s2⟩
   cases hb : e.s.bad with
   | some eb =>
     have hval : send e.s e.env m ans = (e.s, e.env, .err eb, ans) := by simp [send, h1, h2, hb]
-    rw [hval]; exact ⟨h.wf, h.wire⟩
+    rw [hval]; exact ⟨h.wf, h.wire, h.s1, h.s2⟩
   | none =>
     have sp1 := tfs_spec ans e.s e.env h.wf
     generalize hr1 : tryFinishSendAux ans e.s e.env = r1 at sp1
@@ -98,15 +143,18 @@ theorem sendInv_send {e : Ep} (h : SendInv e) (m : Bytes) (ans : List SAns) :
       have hval : send e.s e.env m ans = (r1.1, r1.2.1, .err e1, r1.2.2.2) := by
         simp [send, h1, h2, hb, tryFinishSend, hr1, hres1]
       rw [hval]
-      exact sendInv_flush h ans (by simp [tryFinishSend, hr1]) (by simp [tryFinishSend, hr1]) (by simp)
+      exact sendInv_flush h ans (by simp [tryFinishSend, hr1]) (by simp [tryFinishSend, hr1])
+        (by simp [tryFinishSend, hr1, CntSame]) (by simp)
     | none =>
       -- the previous frame (if any) is flushed; the new message is buffered
       obtain ⟨hsb, hse⟩ := sp1.done hres1
-      have hpend : wirePending r1.1 r1.2.1 = frames e.accepted := by
-        rw [sp1.wire]; exact extra_nil_of_flush_ok h ans (by rw [hr1]; exact hres1)
+      obtain ⟨f1, f2, f3, f4⟩ := flush_counters sp1 h.s1 h.s2
+      obtain ⟨hpend0, hcm0, hcb0⟩ := extra_nil_of_flush_ok h ans (by rw [hr1]; exact hres1)
+      have hpend : wirePending r1.1 r1.2.1 = frames e.accepted := by rw [sp1.wire]; exact hpend0
       have hvalidm : Valid m := ⟨by omega, by omega⟩
+      have hmlt := valid_lt hvalidm
       have hvacc : ∀ x ∈ e.accepted, Valid x := by
-        obtain ⟨extra, _, _, hv⟩ := h.wire
+        obtain ⟨extra, _, _, hv, _⟩ := h.wire
         exact fun x hx => hv x (List.mem_append_left _ hx)
       let s2 : St := { r1.1 with sbuf := frame m, sent := 0,
                                  cnt := { r1.1.cnt with fromAppB := r1.1.cnt.fromAppB + m.length,
@@ -116,14 +164,21 @@ theorem sendInv_send {e : Ep} (h : SendInv e) (m : Bytes) (ans : List SAns) :
         have : r1.2.1.tx = frames e.accepted := by
           simpa [wirePending, hsb] using hpend
         simp [wirePending, s2, this, frames_append, frames_cons, frames_nil]
+      have hrdm : rd32 (frame m) = m.length := by
+        have := rd32_frame_append m hmlt []; simpa using this
+      have h21 : s2.cnt.fromAppM = s2.cnt.toLowerM + (if s2.sbuf = [] then 0 else 1) := by
+        simp only [s2, frame_ne_nil, if_false]; rw [hsb] at f3; simp only [if_true] at f3; omega
+      have h22 : s2.cnt.fromAppB = s2.cnt.toLowerB + (if s2.sbuf = [] then 0 else rd32 s2.sbuf) := by
+        simp only [s2, frame_ne_nil, if_false, hrdm]; rw [hsb] at f4; simp only [if_true] at f4; omega
       have sp2 := tfs_spec r1.2.2.2 s2 r1.2.1 hw2
       generalize hr3 : tryFinishSendAux r1.2.2.2 s2 r1.2.1 = r3 at sp2
+      obtain ⟨g1, g2, g3, g4⟩ := flush_counters sp2 h21 h22
       have hok_or : ∀ (res : Res) (acc' : List Bytes) (extra : List Bytes),
           acc' ++ extra = e.accepted ++ [m] →
           (extra = [] ∨ ∃ m', extra = [m'] ∧ r3.2.1.txErr ≠ none ∧ r3.1.sbuf ≠ []) →
           SendInv { e with s := r3.1, env := r3.2.1, results := e.results ++ [res], accepted := acc' } := by
         intro res acc' extra hacc hex
-        refine ⟨sp2.wf, extra, ?_, hex, ?_⟩
+        refine ⟨sp2.wf, ⟨extra, ?_, hex, ?_, ?_, ?_⟩, g3, g4⟩
         · show wirePending r3.1 r3.2.1 = frames (acc' ++ extra)
           rw [sp2.wire, hp2, hacc]
         · show ∀ x ∈ acc' ++ extra, Valid x
@@ -132,6 +187,11 @@ theorem sendInv_send {e : Ep} (h : SendInv e) (m : Bytes) (ans : List SAns) :
           rcases List.mem_append.mp hx with hx | hx
           · exact hvacc x hx
           · simp only [List.mem_singleton] at hx; subst hx; exact hvalidm
+        · show r3.1.cnt.fromAppM = (acc' ++ extra).length
+          rw [hacc, g1]; simp only [s2, List.length_append, List.length_singleton]; omega
+        · show r3.1.cnt.fromAppB = sumLen (acc' ++ extra)
+          rw [hacc, g2, sumLen_append]; simp only [s2, sumLen, List.map_cons, List.map_nil, List.sum_cons,
+            List.sum_nil] at *; omega
       cases hres3 : r3.2.2.1 with
       | none =>
         have hval : send e.s e.env m ans = (r3.1, r3.2.1, .ok, r3.2.2.2) := by
@@ -147,9 +207,9 @@ theorem sendInv_send {e : Ep} (h : SendInv e) (m : Bytes) (ans : List SAns) :
         · have hval : send e.s e.env m ans = (r3.1, r3.2.1, .err e3, r3.2.2.2) := by
             simp [send, h1, h2, hb, tryFinishSend, hr1, hres1, s2, hr3, hres3, hea]
           rw [hval]
-          obtain ⟨f1, _, f3⟩ := sp2.fail e3 hres3
+          obtain ⟨f1', _, f3'⟩ := sp2.fail e3 hres3
           have := hok_or (.err e3) e.accepted [m] rfl
-            (Or.inr ⟨m, rfl, by rw [f3 hea]; simp, by rw [f1]; exact frame_ne_nil m⟩)
+            (Or.inr ⟨m, rfl, (by rw [f3' hea]; simp), (by rw [f1']; exact frame_ne_nil m)⟩)
           simpa using this
 
 theorem receive_sendside (s : St) (env : Env) (cap : Nat) (ans : List SAns) :
@@ -168,15 +228,20 @@ theorem receive_sendside (s : St) (env : Env) (cap : Nat) (ans : List SAns) :
     have hbm := bufferMsg_sendside s1 env1
     generalize bufferMsg s1 env1 = bm at hbm
     obtain ⟨s2, env2, r2⟩ := bm
+    have hfull : ∀ (c : Cnts) (hc : c.fromAppM = s2.cnt.fromAppM ∧ c.fromAppB = s2.cnt.fromAppB ∧
+        c.toLowerM = s2.cnt.toLowerM ∧ c.toLowerB = s2.cnt.toLowerB),
+        SendSide s1 env1 { s2 with rbuf := [], cnt := c } env2 := fun c hc =>
+      ⟨hbm.1, hbm.2.1, hbm.2.2.1, hbm.2.2.2.1, hc.1.trans hbm.2.2.2.2.1, hc.2.1.trans hbm.2.2.2.2.2.1,
+        hc.2.2.1.trans hbm.2.2.2.2.2.2.1, hc.2.2.2.trans hbm.2.2.2.2.2.2.2⟩
     cases res1 with
     | none =>
       simp only
-      cases r2 <;> simp only <;> first | exact hbm | exact ⟨hbm.1, hbm.2.1, hbm.2.2.1, hbm.2.2.2⟩
+      cases r2 <;> simp only <;> first | exact hbm | exact hfull _ ⟨rfl, rfl, rfl, rfl⟩
     | some e1 =>
       simp only
       by_cases h1 : e1 = EAGAIN
       · simp only [h1, if_true]
-        cases r2 <;> simp only <;> first | exact hbm | exact ⟨hbm.1, hbm.2.1, hbm.2.2.1, hbm.2.2.2⟩
+        cases r2 <;> simp only <;> first | exact hbm | exact hfull _ ⟨rfl, rfl, rfl, rfl⟩
       · simp only [h1, if_false]
         by_cases h2 : e1 = EPIPE
         · simp only [h2, if_true]; exact SendSide.refl _ _
@@ -199,17 +264,22 @@ theorem finish_sendside (s : St) (env : Env) (ans : List SAns) (fin : Option Nat
     | none => cases res1 <;> exact SendSide.refl _ _
 
 theorem sendInv_of_same {e e' : Ep} (h : SendInv e) (hs : e'.s.sbuf = e.s.sbuf ∧ e'.s.sent = e.s.sent)
-    (henv : e'.env.tx = e.env.tx ∧ e'.env.txErr = e.env.txErr) (hacc : e'.accepted = e.accepted) :
-    SendInv e' := by
-  obtain ⟨extra, hw, hex, hv⟩ := h.wire
-  refine ⟨?_, extra, ?_, ?_, by rw [hacc]; exact hv⟩
+    (henv : e'.env.tx = e.env.tx ∧ e'.env.txErr = e.env.txErr) (hcnt : CntSame e'.s e.s)
+    (hacc : e'.accepted = e.accepted) : SendInv e' := by
+  obtain ⟨extra, hw, hex, hv, hc1, hc2⟩ := h.wire
+  refine ⟨?_, ⟨extra, ?_, ?_, (by rw [hacc]; exact hv), (by rw [hcnt.1, hacc]; exact hc1),
+    (by rw [hcnt.2.1, hacc]; exact hc2)⟩, ?_, ?_⟩
   · rcases h.wf with ⟨a, b⟩ | a
     · exact Or.inl ⟨hs.1.trans a, hs.2.trans b⟩
     · exact Or.inr (by rw [hs.1, hs.2]; exact a)
   · rw [hacc, ← hw]; simp only [wirePending, hs.1, hs.2, henv.1]
   · rcases hex with hex | ⟨m, hm, hte, hne⟩
     · exact Or.inl hex
-    · exact Or.inr ⟨m, hm, by rw [henv.2]; exact hte, by rw [hs.1]; exact hne⟩
+    · exact Or.inr ⟨m, hm, (by rw [henv.2]; exact hte), (by rw [hs.1]; exact hne)⟩
+  · rw [hcnt.1, hcnt.2.2.1, hs.1]; exact h.s1
+  · rw [hcnt.2.1, hcnt.2.2.2, hs.1]; exact h.s2
+
+theorem CntSame.refl (s : St) : CntSame s s := ⟨rfl, rfl, rfl, rfl⟩
 
 theorem sendInv_receive {e : Ep} (h : SendInv e) (cap : Nat) (ans : List SAns) :
     SendInv (e.step (.receive cap ans)) := by
@@ -220,10 +290,12 @@ theorem sendInv_receive {e : Ep} (h : SendInv e) (cap : Nat) (ans : List SAns) :
   have key : ∀ e' : Ep, e'.s = s' → e'.env = env' → e'.accepted = e.accepted → SendInv e' := by
     intro e' h1 h2 h3
     rcases hss with ⟨a, b⟩ | hss
-    · exact sendInv_of_same h (by rw [h1]; simp only at a; rw [a]; exact ⟨rfl, rfl⟩)
-        (by rw [h2]; simp only at b; rw [b]; exact ⟨rfl, rfl⟩) h3
+    · simp only at a b
+      exact sendInv_of_same h (by rw [h1, a]; exact ⟨rfl, rfl⟩) (by rw [h2, b]; exact ⟨rfl, rfl⟩)
+        (by rw [h1, a]; exact CntSame.refl _) h3
     · exact sendInv_flush h ans (by rw [h1]; exact ⟨hss.1, hss.2.1⟩)
-        (by rw [h2]; exact ⟨hss.2.2.1, hss.2.2.2⟩) h3
+        (by rw [h2]; exact ⟨hss.2.2.1, hss.2.2.2.1⟩)
+        (by rw [h1]; exact ⟨hss.2.2.2.2.1, hss.2.2.2.2.2.1, hss.2.2.2.2.2.2.1, hss.2.2.2.2.2.2.2⟩) h3
   cases res <;> exact key _ rfl rfl rfl
 
 theorem sendInv_finish {e : Ep} (h : SendInv e) (ans : List SAns) (fin : Option Nat) :
@@ -233,9 +305,11 @@ theorem sendInv_finish {e : Ep} (h : SendInv e) (ans : List SAns) (fin : Option 
   generalize hr : finish e.s e.env ans fin = r at hss
   obtain ⟨s', env', res, ans'⟩ := r
   rcases hss with ⟨a, b⟩ | hss
-  · exact sendInv_of_same h (by simp only at a; rw [a]; exact ⟨rfl, rfl⟩)
-      (by simp only at b; rw [b]; exact ⟨rfl, rfl⟩) rfl
-  · exact sendInv_flush h ans ⟨hss.1, hss.2.1⟩ ⟨hss.2.2.1, hss.2.2.2⟩ rfl
+  · simp only at a b
+    exact sendInv_of_same h (by rw [a]; exact ⟨rfl, rfl⟩) (by rw [b]; exact ⟨rfl, rfl⟩)
+      (by rw [a]; exact CntSame.refl _) rfl
+  · exact sendInv_flush h ans ⟨hss.1, hss.2.1⟩ ⟨hss.2.2.1, hss.2.2.2.1⟩
+      ⟨hss.2.2.2.2.1, hss.2.2.2.2.2.1, hss.2.2.2.2.2.2.1, hss.2.2.2.2.2.2.2⟩ rfl
 
 theorem sendInv_step {e : Ep} (h : SendInv e) (op : Op) : SendInv (e.step op) := by
   cases op with
@@ -246,9 +320,9 @@ theorem sendInv_step {e : Ep} (h : SendInv e) (op : Op) : SendInv (e.step op) :=
     simp only [Ep.step]
     split
     · exact h
-    · exact sendInv_of_same h ⟨rfl, rfl⟩ ⟨rfl, rfl⟩ rfl
-  | eof => exact sendInv_of_same h ⟨rfl, rfl⟩ ⟨rfl, rfl⟩ rfl
-  | rxErr err => exact sendInv_of_same h ⟨rfl, rfl⟩ ⟨rfl, rfl⟩ rfl
+    · exact sendInv_of_same h ⟨rfl, rfl⟩ ⟨rfl, rfl⟩ (CntSame.refl _) rfl
+  | eof => exact sendInv_of_same h ⟨rfl, rfl⟩ ⟨rfl, rfl⟩ (CntSame.refl _) rfl
+  | rxErr err => exact sendInv_of_same h ⟨rfl, rfl⟩ ⟨rfl, rfl⟩ (CntSame.refl _) rfl
 
 theorem sendInv_run (ops : List Op) {e : Ep} (h : SendInv e) : SendInv (e.run ops) := by
   induction ops generalizing e with
@@ -489,7 +563,7 @@ theorem C01_exact_delivery (opsA opsB : List Op)
   generalize Ep.run {} opsA = A at hA hfifo
   generalize Ep.run {} opsB = B at hB hfifo
   refine ⟨?_, hB.ret, hB.lens⟩
-  obtain ⟨extra, hw, hex, hv⟩ := hA.wire
+  obtain ⟨extra, hw, hex, hv, _, _⟩ := hA.wire
   obtain ⟨t, ht⟩ := hfifo
   -- one equation between the two frame streams
   have heq : frames B.fulls ++ (B.s.rbuf ++ B.env.rx.flatten ++ t ++ A.s.sbuf.drop A.s.sent)
